@@ -454,31 +454,31 @@ theorem gov_endblock_finish_total (ops : List Op) (pid : Nat) (p : Proposal) (pa
     · split <;> exact ⟨_, rfl⟩
 
 /-- the staking numbers handed to the end-blocker are those of a staking state: every bonded validator has delegator
-shares (a validator without shares has no tokens and is not bonded).  `historyOk ops` says this of every block of `ops`. -/
+shares (a validator without shares has no tokens and is not bonded).  Only the totality statements need it, and only for
+the block in question: the invariants hold after every history whatever numbers earlier blocks were given. -/
 abbrev stakingOk := FxVerif.Proofs.C15.stakingOk
-abbrev historyOk := FxVerif.Proofs.C15.opsOk
 
 /-- **the sums of `Tally` never divide by zero**, in every reachable state, for every proposal and whatever the staking
 numbers are: every stored vote passed the `MsgVoteWeighted` validation (invariant), so its weights are at most 1 and no
 option occurs twice, hence abstain ≤ total; and with the decision sequence in the order of the source — zero bonded
 before the turnout, all-abstain (which includes "no votes") before the veto and yes shares — no divisor is zero -/
-theorem tally_never_divides_by_zero (ops : List Op) (hok : historyOk ops) (stk : Staking) (hs : stakingOk stk) (pid : Nat) :
+theorem tally_never_divides_by_zero (ops : List Op) (stk : Staking) (hs : stakingOk stk) (pid : Nat) :
     let s := run init ops
     ∃ n, tallyNums (votesOf s.votes pid) stk = some n ∧ n.abstain ≤ n.total ∧ n.bonded = stk.totalBonded ∧
       ∀ p, ∃ r, tally s p n = .ok r := by
   intro s
-  have ha : All s := run_all rfl rfl rfl rfl rfl ops init init_all hok
+  have ha : All s := run_all rfl rfl rfl rfl ops init init_all
   obtain ⟨n, h1, h2, h3⟩ := tallyNums_ok (votes := votesOf s.votes pid) (stk := stk)
     (fun v hv => ha.both.v.valid v (mem_votesOf.mp hv).1) hs rfl
   exact ⟨n, h1, h2, h3, fun p => tally_ok s p h2⟩
 
 /-- … and so does the tally of an active-queue entry of a stored proposal, whatever the votes and the staking numbers are -/
-theorem gov_endblock_active_total (ops : List Op) (hok : historyOk ops) (pid : Nat) (p : Proposal) (stk : Staking)
+theorem gov_endblock_active_total (ops : List Op) (pid : Nat) (p : Proposal) (stk : Staking)
     (hs : stakingOk stk) :
     let s := run init ops
     findProp s.props pid = some p → ∃ s', tallyOne stk pid s = .ok s' := by
   intro s hp
-  obtain ⟨n, h1, _, _, h4⟩ := tally_never_divides_by_zero ops hok stk hs pid
+  obtain ⟨n, h1, _, _, h4⟩ := tally_never_divides_by_zero ops stk hs pid
   obtain ⟨⟨passes, burn⟩, hr⟩ := h4 p
   have h1' : tallyNums (votesOf s.votes pid) stk = some n := h1
   have hr' : tally s p n = .ok (passes, burn) := hr
@@ -525,13 +525,13 @@ theorem gov_endblock_total_partial (ops : List Op) (stk : Staking) (s' : State) 
 proposals in their deposit period, the active queue exactly the `(voting end, id)` of those in their voting period, both
 strictly sorted (every entry once) — so every open proposal is due at its end time and will be settled, and no entry
 lacks its proposal -/
-theorem queue_consistency (ops : List Op) (hok : historyOk ops) :
+theorem queue_consistency (ops : List Op) :
     let s := run init ops
     (∀ t id, (t, id) ∈ s.inactive ↔ ∃ p, findProp s.props id = some p ∧ p.status = .deposit ∧ p.depositEnd = t) ∧
     (∀ t id, (t, id) ∈ s.active ↔ ∃ p, findProp s.props id = some p ∧ p.status = .voting ∧ p.votingEnd = t) ∧
     s.inactive.Pairwise qlt ∧ s.active.Pairwise qlt ∧ s.inactive.Nodup ∧ s.active.Nodup := by
   intro s
-  have ha : All s := run_all rfl rfl rfl rfl rfl ops init init_all hok
+  have ha : All s := run_all rfl rfl rfl rfl ops init init_all
   have q := ha.both.q
   refine ⟨?_, ?_, q.inactSorted, q.actSorted, nodup_of_sorted q.inactSorted, nodup_of_sorted q.actSorted⟩
   · intro t id
@@ -543,16 +543,16 @@ theorem queue_consistency (ops : List Op) (hok : historyOk ops) :
 `EndBlocker` returns no error — every refund and burn is covered (deposit invariant), every queue entry has its proposal
 (queue consistency), no tally divides by zero (vote-store invariant and the order of the tests) — and all invariants
 hold again -/
-theorem gov_endblock_total (ops : List Op) (hok : historyOk ops) (stk : Staking) (hs : stakingOk stk) :
+theorem gov_endblock_total (ops : List Op) (stk : Staking) (hs : stakingOk stk) :
     ∃ s', endBlock stk (run init ops) = .ok s' ∧ Inv s' ∧ QInv s' ∧ VInv s' := by
-  have ha : All (run init ops) := run_all rfl rfl rfl rfl rfl ops init init_all hok
+  have ha : All (run init ops) := run_all rfl rfl rfl rfl ops init init_all
   obtain ⟨s', h, a'⟩ := endBlock_total rfl rfl rfl rfl rfl ha hs
   exact ⟨s', h, a'.inv, a'.both.q, a'.both.v⟩
 
 /-- no history halts: a step of the model never answers `halt:` -/
-theorem no_halt (ops : List Op) (hok : historyOk ops) (dt : Nat) (stk : Staking) (hs : stakingOk stk) :
+theorem no_halt (ops : List Op) (dt : Nat) (stk : Staking) (hs : stakingOk stk) :
     (step (run init ops) (.endBlock dt stk)).2 = "ok" := by
-  obtain ⟨s', h, _⟩ := gov_endblock_total ops hok stk hs
+  obtain ⟨s', h, _⟩ := gov_endblock_total ops stk hs
   simp [step, h]
 
 /-! ## the vote store -/
@@ -560,12 +560,12 @@ theorem no_halt (ops : List Op) (hok : historyOk ops) (dt : Nat) (stk : Staking)
 /-- **votes in every reachable state**: every stored vote passed the validation of `MsgVoteWeighted` (weights in (0, 1],
 no option twice, weights adding up to 1), belongs to a stored proposal that is in its voting period, and there is at
 most one per (proposal, voter) -/
-theorem votes_valid_and_current (ops : List Op) (hok : historyOk ops) :
+theorem votes_valid_and_current (ops : List Op) :
     let s := run init ops
     (∀ v ∈ s.votes, optsValid v.opts = true ∧ ∃ p, findProp s.props v.pid = some p ∧ p.status = .voting) ∧
     s.votes.Pairwise (fun a b => ¬ (a.pid = b.pid ∧ a.voter = b.voter)) := by
   intro s
-  have ha : All s := run_all rfl rfl rfl rfl rfl ops init init_all hok
+  have ha : All s := run_all rfl rfl rfl rfl ops init init_all
   exact ⟨fun v hv => ⟨ha.both.v.valid v hv, ha.both.v.voting v hv⟩, ha.both.v.uniq⟩
 
 /-- **a tally consumes the votes it counted**: after the tally of a proposal none of its votes is stored, whatever the
@@ -664,11 +664,11 @@ theorem tally_power_bounded_by_stake (v : Val) (hS : 0 < v.shares) (ds : List Na
 
 /-- **every stored proposal, after every history, has messages of one type** (they passed `checkProposalMsgs` at
 submission and the messages of a stored proposal never change) -/
-theorem stored_proposals_single_type (ops : List Op) (hok : historyOk ops) (pid : Nat) (p : Proposal) :
+theorem stored_proposals_single_type (ops : List Op) (pid : Nat) (p : Proposal) :
     let s := run init ops
     findProp s.props pid = some p → ∀ a ∈ p.msgs, ∀ b ∈ p.msgs, lowerAscii a.ty = lowerAscii b.ty := by
   intro s hp
-  have ha : All s := run_all rfl rfl rfl rfl rfl ops init init_all hok
+  have ha : All s := run_all rfl rfl rfl rfl ops init init_all
   have hc : checkMsgs p.msgs = true := ha.both.q.typed pid p hp
   cases hm : p.msgs with
   | nil => intro a ha'; cases ha'
@@ -768,8 +768,8 @@ example : (run init demoOps).gov = 5000 + 1 + 1999 ∧ (run init demoOps).time =
 example : (demoOps.map (fun o => (step (run init (demoOps.take 11)) o).2)).drop 11 = ["err:inactive", "err:vote", "ok", "ok"] := by
   decide
 
-example : historyOk demoOps ∧ stakingOk demoStk := by
-  refine ⟨⟨?_, ?_, trivial⟩, ?_⟩ <;> (intro v hv; simp [demoStk] at hv; rcases hv with rfl | rfl | rfl <;> decide)
+example : stakingOk demoStk := by
+  intro v hv; simp [demoStk] at hv; rcases hv with rfl | rfl | rfl <;> decide
 
 example : specMin (run init demoOps).custom 1000 [spend 20000 0] = 2000 ∧ specMin (run init demoOps).custom 1000 [spend 0 4] = 1000 ∧
     specMin (run init demoOps).custom 1000 [spend 12000 0, spend 8000 0] = 2000 := by
